@@ -83,7 +83,7 @@ def record(sp, rs, k, thorough):
     ev = []
     prev = None
     alg = app.alg
-    while not alg.done():
+    while not alg.done() and alg.iter <= max_iter + 2:
         alg.update()
         eig = np.real(np.asarray(alg.max_eig))
         nrm = np.sqrt((np.abs(app.mps) ** 2).sum(axis=-2))
@@ -181,7 +181,7 @@ def run(ctx):
                 try:
                     alg = sp.alg.PowerMethod(lambda v: (A @ v.ravel()).reshape(shape), x, max_iter=st["k"])
                     ests = []
-                    while not alg.done():
+                    while not alg.done() and len(ests) <= st["k"] + 2:
                         alg.update()
                         ests.append(alg.max_eig)
                 except Exception as e:
